@@ -20,7 +20,7 @@ from the Rust code: a *statically typed* big-step semantics over untagged values
 
 `Strict` = `Spec.typed` plus the decidable guard that excludes exactly the region of the known
 finding "untyped literal lowered to DINT, assignment stores the value as is" (NoDrift), the
-`ULINT as i64` cast of FOR bounds and `RETURN` in a PROGRAM.
+`ULINT as i64` cast of FOR bounds.
 -/
 namespace TrustVerif.StCore
 
@@ -528,7 +528,7 @@ def strictStmt (Γ : Ctx) : Stmt → Bool
   | .repeat body c => strictBlock Γ body && noDriftE Γ c
   | .exit => true
   | .continue => true
-  | .ret => false          -- RETURN in a PROGRAM: known finding (InvalidControlFlow)
+  | .ret => true           -- RETURN in a PROGRAM: early exit (fixed in f3b5b76)
 
 def strictBlock (Γ : Ctx) : Block → Bool
   | .nil => true
